@@ -27,6 +27,12 @@ package jsonapi
 //@ spec upShape(res *SoftResource, typ Type, t string) = res != nil && fresh(res) && res.Type != nil && fresh(res.Type) && res.Type.Name == typ.Name && srTypeWf(res) && res.id == rsk_id(t) && (res.Type.Attrs == nil || fresh(res.Type.Attrs)) && (res.Type.Rels == nil || fresh(res.Type.Rels)) && (res.data == nil || fresh(res.data)) && res.Type.NewFunc == nil
 //@ spec upTyped(res *SoftResource) = res.data != nil ==> srTyped(res)
 
+// Relationship values as functions of the payload: the id decoded from the data
+// member (into a zero Identifier: "" when data is null) / the list of ids.
+//@ spec relOneVal(v any, t string) = dyn(v) == type[string] && str(v) == ident_id(t)
+//@ spec relManyVal(v any, t string) = dyn(v) == type[[]string] && len(sl(v, type[[]string])) == idents_len(t) && (forall i int :: 0 <= i && i < idents_len(t) ==> sl(v, type[[]string])[i] == idents_id(t, i))
+//@ spec relVal(v any, rel Rel, t string) = ite(rel.ToOne, relOneVal(v, t), relManyVal(v, t))
+
 //@ func UnmarshalPartialResource
 //@ flag post-per-return
 //@ props C13 C05
@@ -41,7 +47,9 @@ package jsonapi
 //@ ensures rels-dom: result1 == nil ==> (forall r string :: (r in result0.Type.Rels) == (rsk_hasRel(old(text(data)), r) && rsk_relData(old(text(data)), r) != ""))
 //@ ensures rels-def: result1 == nil ==> (forall r string, i int :: r in result0.Type.Rels && isFirst(schema, i, rsk_type(old(text(data)))) ==> r in schema.Types[i].Rels && result0.Type.Rels[r] == schema.Types[i].Rels[r])
 //@ ensures typed: result1 == nil ==> srTyped(result0)
+//@ ensures rel-values: result1 == nil ==> (forall r string :: r in result0.Type.Rels ==> r in result0.data && relVal(result0.data[r], result0.Type.Rels[r], rsk_relData(old(text(data)), r)))
 //@ loop 0 invariant frame: unchanged(heap[Type]) && unchanged(heap[Schema]) && unchanged(maps[map[string]Attr]) && unchanged(maps[map[string]Rel]) && unchanged(heap[string]) && unchanged(heap[uint8]) && unchanged(heap[SoftResource]) && unchanged(maps[map[string]any])
+//@ loop 0 invariant loopframe: loopkept(heap[uint8])
 //@ loop 0 invariant shape: res != nil && fresh(res) && res.Type == &newType && fresh(res.Type) && res.Type.Name == typ.Name && res.id == rsk_id(old(text(data))) && res.Type.NewFunc == nil
 //@ loop 0 invariant shape-wf: attrsWf(res.Type.Attrs) && relsWf(res.Type.Rels) && fieldsDisjoint(*res.Type)
 //@ loop 0 invariant shape-fresh: (res.Type.Attrs == nil || fresh(res.Type.Attrs)) && (res.Type.Rels == nil || fresh(res.Type.Rels)) && (res.data == nil || fresh(res.data))
@@ -51,6 +59,7 @@ package jsonapi
 //@ loop 0 invariant typed: upTyped(res)
 //@ loop 0 invariant data-only-fields: res.data != nil ==> (forall k string :: k in res.data ==> srIsField(res, k))
 //@ loop 1 invariant frame: unchanged(heap[Type]) && unchanged(heap[Schema]) && unchanged(maps[map[string]Attr]) && unchanged(maps[map[string]Rel]) && unchanged(heap[string]) && unchanged(heap[uint8]) && unchanged(heap[SoftResource]) && unchanged(maps[map[string]any])
+//@ loop 1 invariant loopframe: loopkept(heap[uint8])
 //@ loop 1 invariant shape: res != nil && fresh(res) && res.Type == &newType && fresh(res.Type) && res.Type.Name == typ.Name && res.id == rsk_id(old(text(data))) && res.Type.NewFunc == nil
 //@ loop 1 invariant shape-wf: attrsWf(res.Type.Attrs) && relsWf(res.Type.Rels) && fieldsDisjoint(*res.Type)
 //@ loop 1 invariant shape-fresh: (res.Type.Attrs == nil || fresh(res.Type.Attrs)) && (res.Type.Rels == nil || fresh(res.Type.Rels)) && (res.data == nil || fresh(res.data))
@@ -59,8 +68,10 @@ package jsonapi
 //@ loop 1 invariant rels-so-far: forall r string :: visited(r) && rsk_relData(old(text(data)), r) != "" ==> r in res.Type.Rels && res.Type.Rels[r] == typ.Rels[r]
 //@ loop 1 invariant rels-only: forall r string :: r in res.Type.Rels ==> visited(r) && r in typ.Rels && rsk_relData(old(text(data)), r) != ""
 //@ loop 1 invariant typed: upTyped(res)
+//@ loop 1 invariant rel-values: forall r2 string :: r2 in res.Type.Rels ==> r2 in res.data && relVal(res.data[r2], res.Type.Rels[r2], rsk_relData(old(text(data)), r2))
 //@ loop 1 invariant data-only-fields: res.data != nil ==> (forall k string :: k in res.data ==> srIsField(res, k))
-//@ loop 2 invariant ids: fresh(ids) && len(ids) == len(idens) && unchanged(heap[string])
+//@ loop 2 invariant ids: fresh(ids) && len(ids) == len(idens) && unchanged(heap[string]) && loopkept(heap[string], ids)
+//@ loop 2 invariant ids-so-far: forall j int :: 0 <= j && j <= $idx ==> ids[j] == idens[j].ID
 
 //@ func UnmarshalIdentifier
 //@ props C05 C12
@@ -78,7 +89,7 @@ package jsonapi
 //@ loop 0 invariant idens: fresh(idens) && len(idens) == len(raw) && raw == pre(raw) && unchanged(heap[Identifier]) && unchanged(heap[string]) && unchanged(heap[Type]) && unchanged(heap[Schema])
 //@ loop 0 invariant done: schema != nil ==> (forall k int :: 0 <= k && k <= $idx ==> hasType(schema, idens[k].Type) && idens[k].ID != "")
 //@ func UnmarshalPartialResource+
-//@ use SoftResource.Set: keep-id checked fresh-data fresh-maps new-maps-empty typed-attrs typed-rels only-fields
+//@ use SoftResource.Set: keep-id set-rel others checked fresh-data fresh-maps new-maps-empty typed-attrs typed-rels only-fields
 //@ use Type.AddAttr: accept added others rest same-map fresh-map wf disjoint unchanged-on-error
 //@ use Type.AddRel: accept added others rest same-map fresh-map wf disjoint unchanged-on-error
 //@ assert before Set#0 attr-added: attr.Name == a && a in res.Type.Attrs && res.Type.Attrs[a] == typ.Attrs[a]
@@ -95,6 +106,14 @@ package jsonapi
 //@ assert before Set#2 data-fields: res.data != nil ==> (forall k string :: k in res.data ==> srIsField(res, k))
 //@ use Attr.UnmarshalToType: error-xor-value typed-string typed-int typed-int8 typed-int16 typed-int32 typed-int64 typed-uint typed-uint8 typed-uint16 typed-uint32 typed-uint64 typed-bool typed-time-Time typed-slice-byte
 //@ use Schema.GetType: found missing named first
+//@ assert before Set#1 one-text: rsk_hasRel(old(text(data)), r) && text(v#1.Data) == rsk_relData(old(text(data)), r) && (err == nil ==> iden.ID == ident_id(rsk_relData(old(text(data)), r)))
+//@ assert before Set#1 prev-vals: forall r2 string :: r2 != r && r2 in res.Type.Rels ==> r2 in res.data && relVal(res.data[r2], res.Type.Rels[r2], rsk_relData(old(text(data)), r2))
+//@ assert after Set#1 cur-val: r in res.data && (err == nil ==> relVal(res.data[r], res.Type.Rels[r], rsk_relData(old(text(data)), r)))
+//@ assert after Set#1 prev-vals2: forall r2 string :: r2 != r && r2 in res.Type.Rels ==> r2 in res.data && relVal(res.data[r2], res.Type.Rels[r2], rsk_relData(old(text(data)), r2))
+//@ assert before Set#2 many-text: rsk_hasRel(old(text(data)), r) && text(v#1.Data) == rsk_relData(old(text(data)), r) && (err == nil ==> len(ids) == idents_len(rsk_relData(old(text(data)), r))) && (err == nil ==> (forall j int :: 0 <= j && j < len(ids) ==> ids[j] == idents_id(rsk_relData(old(text(data)), r), j)))
+//@ assert before Set#2 prev-vals: forall r2 string :: r2 != r && r2 in res.Type.Rels ==> r2 in res.data && relVal(res.data[r2], res.Type.Rels[r2], rsk_relData(old(text(data)), r2))
+//@ assert after Set#2 cur-val: r in res.data && (err == nil ==> relVal(res.data[r], res.Type.Rels[r], rsk_relData(old(text(data)), r)))
+//@ assert after Set#2 prev-vals2: forall r2 string :: r2 != r && r2 in res.Type.Rels ==> r2 in res.data && relVal(res.data[r2], res.Type.Rels[r2], rsk_relData(old(text(data)), r2))
 //@ assert after Set#1 cur-added: r in res.Type.Rels && res.Type.Rels[r] == typ.Rels[r]
 //@ assert after Set#2 cur-added: r in res.Type.Rels && res.Type.Rels[r] == typ.Rels[r]
 //@ assert after Set#1 prev-kept: forall r2 string :: visited#1(r2) && rsk_relData(old(text(data)), r2) != "" ==> r2 in res.Type.Rels && res.Type.Rels[r2] == typ.Rels[r2]
